@@ -56,9 +56,9 @@ def canon(r):
 
 
 def run(ctx):
-    progs = programs(ctx, 150 if ctx.quick else 500)
+    progs = programs(ctx, 100 if ctx.quick else 250)
     H = 3
-    seeds = ['0', '1', '2'] if ctx.quick else [str(x) for x in range(16)]
+    seeds = ['0', '1', '2'] if ctx.quick else [str(x) for x in range(8)]
     cex, nontriv = [], set()
     # (a) fresh workers per hash seed (small pools: each worker still serves several requests, histories differ per seed)
     base_t, base_s = None, None
@@ -79,7 +79,7 @@ def run(ctx):
                 cex.append({'key': 'c14:hashseed-solve:' + ' '.join(t).replace('\n', ' '), 'what': 'answer sets differ between PYTHONHASHSEED=%s and %s' % (seeds[0], hs), 'input': {'texts': t, 'kind': 'hashseed-solve', 'seeds': [seeds[0], hs], 'H': H}})
     # (b) one long-lived process, random history; (c) interleaved threads
     rng = ctx.rng('history')
-    nh = 12 if ctx.quick else 60
+    nh = 12 if ctx.quick else 40
     hist_reqs, metas = [], []
     for j in range(nh):
         idx = [rng.randrange(len(progs)) for _ in range(12)]
